@@ -1,5 +1,5 @@
-from . import props_bf, props_tape, props_static, props_parser, props_sv
+from . import props_bf, props_tape, props_static, props_parser, props_sv, props_arith, props_cli
 
 CHECKS = {}
-for m in (props_bf, props_tape, props_static, props_parser, props_sv):
+for m in (props_bf, props_tape, props_static, props_parser, props_sv, props_arith, props_cli):
     CHECKS.update(m.CHECKS)
